@@ -665,15 +665,13 @@ CLAIMS = {
          "(extract.c02_go_words: the specification's lists + helper / import / fixed parameter and field names re-read from go/runtime.rs and go/compile.rs); the printed text is parsed back by "
          "goparse.rs, which refuses Go's 25 keywords in every identifier position (its own negative controls run with the catalogue), and Go.Check judges the AST. "
          "Known findings: closures in func-typed positions, nested type switch on one scrutinee, dyn-annotated struct literal; from the name-test catalogue: user functions "
-         "named like a builtin, types/packages whose name contains `TParam`, a library function called `main`, items called `main`/`main0`, functions / types / library variants named like a runtime helper function.",
-    design_ref="§5 C02; DCE (C02/C09) — as built",
-         "named like a builtin, types/packages whose name contains `TParam`, a library function called `main`, items called `main`/`main0`. "
+         "named like a builtin, types/packages whose name contains `TParam`, a library function called `main`, items called `main`/`main0`, functions / types / library variants named like a runtime helper function. "
          "Definition-only type catalogue (gv c02deftypes; validation, not proof): every kind of type whose Go spelling names a declaration (tuple, array, Ref, Vec, "
          "dyn Trait implemented / unimplemented / with a rich signature, function type, generic enum / struct instance, extern type; each nested in 11 wrappers: 146 kinds) "
          "x every place a type can be written without a function mentioning it (18 places: payload of an unbuilt variant, field of an unbuilt struct, struct behind an unused "
          "variant, generic instance argument / annotation / field, trait method parameter / result, extern signature, second file, other package; plus a control place), "
          "one program per cell, judged by Go.Check (every named type declared once), the printer parse-back and no-panic (oracle definition-only-type). It found and led to "
-         "fixes e1e8ab3 (dyn Trait only in a type definition) and bce7de3 (runtime type only as a Vec element); known from it: the types of a never-implemented trait's method "
+         "fixes 8ba5942 (dyn Trait only in a type definition) and c0cf55d (runtime type only as a Vec element); known from it: the types of a never-implemented trait's method "
          "signatures named by its vtable struct are not declared, a generic instance in a trait method signature panics the back end when the trait is used as dyn, an "
          "extern type of a library package gets a qualified Go name.",
     design_ref="§5 C02; DCE (C02/C09) — as built; C02 definition-only type catalogue (round 11)",
@@ -917,6 +915,27 @@ CLAIMS["C12"]["note"] += (
     " Fourth pass: Input's trivia skipping is modelled (Model/InputView.lean) and input_view proves that Input::nth/peek/eof/skip on "
     "all tokens answer what the grammar model's look/isEof/bump answer on the non-trivia kinds (kindsOf = view, length = nonTrivia).")
 
+
+CLAIMS["C18"]["text"] += (
+    " Round 11 follow-up: the attribute's TEXT is inside the model — attrText / stripComments mirror ast/src/lower.rs::lower_attributes (the text of "
+    "the attribute's syntax node, which holds every trivia token up to the next token of the file, without its comment tokens; string literals are "
+    "respected) — with attr_comment_invisible / attr_comment_at_end / attr_plain / derive_attrs_comment (a // comment after string-free code of the "
+    "node, in particular after the closing bracket or between two targets, changes neither the text derive.rs reads nor the traits derived) and "
+    "derive_attrs_union_src; tied by the AST comparison of derive::expand's output (expandImplsSrc of the node texts as written) and searched with a "
+    "layout family in the generator (13 layouts after an attribute, two multi-line spellings with comments between the targets) and in the probe "
+    "catalogue (8 attribute lists x 12 layouts + 10 attributes with a comment between their own tokens, judged by a comment-aware reading written "
+    "independently of the compiler's lexer); Model/Lower.lean lowerAttributes (Cst.codeText) follows the same fix and is tied by the lowering tie on "
+    "the real trees of the probes and of the generated programs that spell their attributes. Hygiene against the package: GMethod.hygienic tops (no call of the generated body is taken by a "
+    "top-level function of the package the type is defined in; name resolution prefers the package's definitions to the builtins) with "
+    "derive_hygienic_partial (holds when no function of the package is spelled like a helper of the regenerated tables; the examples after it are the "
+    "capture) — tied and searched by a catalogue of two-package projects: for every (derived method, helper, leaf type) READ OFF the impl blocks the "
+    "real derive::expand appends (24 pairs), a library package defining the derived type next to a function spelled like the helper (same / other "
+    "signature) and two controls (no such function; a longer name), expected text from the declarative writers.")
+CLAIMS["C18"]["note"] += (
+    " Round 11 follow-up: one more defect fixed in the repository copy (a comment after or inside a derive attribute silently disabled the derive, a "
+    "commented-out target was derived: 0de5442); one more known finding (a function of a LIBRARY package spelled like a runtime helper takes the calls "
+    "of the derived code: not JSON / generated code rejected in the typer). stripComments covers the token kinds an attribute is made of in the "
+    "generated and catalogue inputs (punctuation, identifiers, \"...\" literals, whitespace, // comments), not multi-line strings or char literals.")
 
 def main():
     checks = []
